@@ -51,7 +51,8 @@ def describe(tier):
             "sub-directory, dots in names, the same file name in two directories (with different and with identical word sets), dot-prefixed files and directories; the directory itself named with glob characters / blanks, given as an absolute path and as four relative spellings, and a custom directory literally called 'keywords') are materialised; every non-decoder registry entry is observed behaviourally on a probe text that contains every "
             "word: the (type, value) pairs it reports must be exactly (file name, word) for the non-blank lines of one file, one entry per non-empty file; the "
             "decoder part of a registry built with a custom directory must equal the default decoder part. The shipped keyword directory is walked "
-            "independently and compared the same way. states = distinct configurations, transitions = registry entries examined, traces = registries "
+            "independently and compared the same way. Directory HISTORIES: one directory path (files tag, other, sub/inner) is built, then edited by every sequence of <= "
+            f"{HIST_DEPTH[tier]} events out of {[e[0] for e in HIST_EVENTS]} (in-place rewrites that leave the directory's own mtime alone, same-size rewrites with the file's mtime restored, files added / removed below an existing sub-directory, top-level additions with the directory's mtime restored) and built again after EVERY event through build_registry / get_keywords / Multidecoder, each build compared with what is on disk at that moment (a registry must not remember an earlier state of the directory). states = distinct configurations, transitions = registry entries examined, traces = registries "
             "built and compared. Non-trivial = configuration that selects a proper, non-empty subset."
         ),
         "bounds": {"universe5": U5, "keyword_file_kinds": [k[0] for k in KINDS]},
@@ -86,7 +87,96 @@ def plan(tier, seed):
         units += [("all-include", i) for i in range(16)]
     units += [("kwdirs", i) for i in range(64)]
     units += [("foreign",)]
+    units += [("kwhist", i, tier) for i in range(len(HIST_EVENTS))]
     return units
+
+
+# ---- directory histories: the SAME directory path is built again after every edit; what is built must be what is on disk now ----------------
+def _write(p, content):
+    os.makedirs(os.path.dirname(p), exist_ok=True)
+    with open(p, "wb") as f:
+        f.write(content)
+
+
+def _inplace(p, content, keep_times=False):
+    """rewrite an existing file without touching its directory entry (the directory's mtime does not move)"""
+    st = os.stat(p)
+    with open(p, "r+b") as f:
+        f.truncate(0)
+        f.write(content)
+    if keep_times:
+        os.utime(p, ns=(st.st_atime_ns, st.st_mtime_ns))
+
+
+def _rm(p):
+    if os.path.exists(p):
+        os.unlink(p)
+
+
+def _keep_dir_time(top, fn):
+    st = os.stat(top)
+    fn()
+    os.utime(top, ns=(st.st_atime_ns, st.st_mtime_ns))
+
+
+HIST_EVENTS = [
+    ("edit-top-inplace", lambda d: _inplace(os.path.join(d, "tag"), b"uno\ndos\n")),
+    ("edit-top-same-size-same-mtime", lambda d: _inplace(os.path.join(d, "tag"), b"two\none\n"[: len(open(os.path.join(d, "tag"), "rb").read())].ljust(len(open(os.path.join(d, "tag"), "rb").read()), b"z"), True)),
+    ("empty-top-inplace", lambda d: _inplace(os.path.join(d, "tag"), b"\n")),
+    ("edit-sub-inplace", lambda d: _inplace(os.path.join(d, "sub", "inner"), b"tres\n")),
+    ("add-in-sub", lambda d: _write(os.path.join(d, "sub", "extra"), b"quatro\n")),
+    ("rm-in-sub", lambda d: _rm(os.path.join(d, "sub", "inner"))),
+    ("add-top", lambda d: _write(os.path.join(d, "newtop"), b"cinco\n")),
+    ("rm-top", lambda d: _rm(os.path.join(d, "other"))),
+    ("add-top-dir-time-kept", lambda d: _keep_dir_time(d, lambda: _write(os.path.join(d, "quiet"), b"seis\n"))),
+    ("new-subdir", lambda d: _write(os.path.join(d, "sub9", "deep", "f"), b"siete\n")),
+]
+HIST_DEPTH = {"quick": 3, "thorough": 4}
+BUILDERS = [("build_registry", lambda d: mdreg.build_registry(d)), ("get_keywords", lambda d: mdreg.build_registry()[:0] + held_all(mdreg.get_keywords(d))),
+            ("Multidecoder", lambda d: __import__("multidecoder.multidecoder", fromlist=["Multidecoder"]).Multidecoder(mdreg.build_registry(d)).decoders)]
+
+
+def held_all(reg):
+    return mdreg.get_analyzers() + list(reg)
+
+
+def run_kwhist(rec, astd, first, tier="quick", only=None):
+    depth = HIST_DEPTH[tier]
+    rest = list(range(len(HIST_EVENTS)))
+    hists = [only] if only is not None else [(first,) + t for L in range(depth) for t in itertools.product(rest, repeat=L)]
+    for hist in hists:
+        tmp = tempfile.mkdtemp(prefix="c18hist")
+        try:
+            _write(os.path.join(tmp, "tag"), b"one\ntwo\n")
+            _write(os.path.join(tmp, "other"), b"three\n")
+            _write(os.path.join(tmp, "sub", "inner"), b"four\n")
+            for bi, (bname, build) in enumerate(BUILDERS):
+                if only is None and (sum(hist) + len(hist)) % len(BUILDERS) != bi and len(hist) > 2:
+                    continue  # depth <= 2: every builder; deeper: one builder per history, all three over the family
+                # rebuild the starting layout for this builder
+                shutil.rmtree(tmp, ignore_errors=True)
+                _write(os.path.join(tmp, "tag"), b"one\ntwo\n")
+                _write(os.path.join(tmp, "other"), b"three\n")
+                _write(os.path.join(tmp, "sub", "inner"), b"four\n")
+                w = {"kind": "kwhist", "history": [HIST_EVENTS[i][0] for i in hist], "idx": list(hist), "builder": bname}
+                ok, reg = rec.guard("C18.total", w, len(hist), build, tmp)
+                if ok:
+                    check_keywords(rec, reg, tmp, astd, dict(w, step=0), len(hist))
+                for step, ei in enumerate(hist, 1):
+                    try:
+                        HIST_EVENTS[ei][1](tmp)
+                    except FileNotFoundError:
+                        continue  # editing a file an earlier event removed: the event is not enabled
+                    rec.count("evaluations")
+                    rec.mark("states", 0, True)
+                    rec.mark("nontrivial", 0, True)
+                    ok, reg = rec.guard("C18.total", w, len(hist), build, tmp)
+                    if ok:
+                        rec.count("traces")
+                        check_keywords(rec, reg, tmp, astd, dict(w, step=step), len(hist))
+        finally:
+            shutil.rmtree(tmp, ignore_errors=True)
+    rec.sample({"kwhist_first_event": HIST_EVENTS[first][0] if only is None else list(only), "histories": len(hists)})
 
 
 FOREIGN_CHILD = r"""
@@ -344,6 +434,8 @@ def run_unit(unit, rec):
             finally:
                 shutil.rmtree(tmp, ignore_errors=True)
         rec.sample({"keyword_layout_masks_mod8": unit[1]})
+    elif kind == "kwhist":
+        run_kwhist(rec, astd, unit[1], unit[2] if len(unit) > 2 else "quick")
 
 
 def replay(w, rec):
@@ -360,6 +452,8 @@ def replay(w, rec):
         check_decoders(rec, astd, inc, exc, lambda: fn(**kwargs), w)
     elif k == "kwdir":
         run_unit(("kwdirs", w["mask"] % 64), rec)
+    elif k == "kwhist":
+        run_kwhist(rec, astd, w["idx"][0], only=tuple(w["idx"]))
     elif k == "foreign":
         run_unit(("foreign",), rec)
     elif k == "default":
